@@ -18,6 +18,7 @@ structure Valuation where
   done : Name → Bool
   tracked : Name → Int
   levels : Name → List Int
+  named : Name → Bool := fun _ => false
 
 mutual
 /-- truth of an expression: atoms by their values, `all`/`any`/`inv` as and/or/not -/
@@ -35,6 +36,7 @@ def evalE (v : Valuation) : CExpr Rat → Bool
   | .tracked x op k => cmpOp op (v.tracked x) k
   | .tracked2 x op y => cmpOp op (v.tracked x) (v.tracked y)
   | .resLevel r op k => vecCmp op (v.levels r) k
+  | .ref n => v.named n
 def evalAll (v : Valuation) : List (CExpr Rat) → Bool
   | [] => true
   | c :: cs => evalE v c && evalAll v cs
@@ -100,6 +102,8 @@ theorem invert_negates (v : Valuation) : (c c' : CExpr Rat) → scalarOnly c = t
   | .inv (.tracked _ _ _), _, _, h => by simp [invertNorm] at h
   | .inv (.resLevel _ _ _), _, _, h => by simp [invertNorm] at h
   | .inv (.tracked2 _ _ _), _, _, h => by simp [invertNorm] at h
+  | .inv (.ref _), _, _, h => by simp [invertNorm] at h
+  | .ref _, _, _, h => by simp [invertNorm] at h
   | .after t, c', _, h => by
       simp [invertNorm] at h; subst h
       simp only [evalE]
@@ -161,7 +165,7 @@ unchanged code (finding F13): `~(levels >= x)` is built as `levels < x`, and ele
 the negation of elementwise `>=` - both are false for levels (1, 5) against (2, 2). -/
 theorem invert_reslevel_not_negation :
     ∃ (v : Valuation) (c c' : CExpr Rat), invertNorm c = some c' ∧ evalE v c = false ∧ evalE v c' = false := by
-  refine ⟨⟨fun _ => false, 0, fun _ => false, fun _ => 0, fun _ => [1, 5]⟩, .resLevel 0 4 [2, 2], .resLevel 0 0 [2, 2], rfl, ?_, ?_⟩ <;>
+  refine ⟨⟨fun _ => false, 0, fun _ => false, fun _ => 0, fun _ => [1, 5], fun _ => false⟩, .resLevel 0 4 [2, 2], .resLevel 0 0 [2, 2], rfl, ?_, ?_⟩ <;>
     decide
 
 /-- **double inversion** and the `&`/`|` readings are definitional in `evalE` -/
